@@ -44,6 +44,7 @@ macro "eval_model" : tactic => `(tactic|
     Gen.Log.findEntryCmp, Gen.Log.containsCmp, Gen.Log.hwGoneCheck, Gen.Log.readerBeyondHWCmp, Gen.Log.setHWCmp,
     Gen.HWReader.setHWNotifies, Gen.HWReader.notifyClearsWaiters, Gen.HWReader.readerHWSameCmp,
     Gen.HWReader.waitRecheckCmp, Gen.HWReader.waitReadonlyCmp, Gen.HWReader.hwSegLimit,
+    Gen.HWReader.waitRechecks, Gen.HWReader.notifyReadonlyCmp, registerWait, stepWith, runWith, HWReader.setReadonly,
     Gen.HWReader.resyncErrPropagates, Cmp.evalInt, Cmp.evalNat])
 
 /-- Initial states: any log satisfying the commit-log invariant, HW at least -1, no readers. -/
@@ -332,9 +333,124 @@ theorem follower_capped_le_newest (hc : Gen.HWReader.followerHWCapped = true) (l
   simp only [if_true]
   split <;> constructor <;> omega
 
-/-! ### The hypotheses are satisfiable; the model does something -/
+/-! ### Why `waitForHW` re-checks the HW under the log lock
+
+`checkHW` (the reader samples `HighWatermark()` under a read lock it releases again) and
+`registerWait` (`commitLog.waitForHW` under the write lock) are two steps; `setHW` notifies only
+readers that are ALREADY registered. `no_lost_wakeup` above holds because `registerWait` compares
+the reader's sample with the current HW before it registers the reader — a fact regenerated from
+the source (`Gen.HWReader.waitRechecks`, `Gen.HWReader.waitRecheckCmp`): without the comparison
+the model parks unconditionally, `ginv_step` (hence every theorem above) no longer checks, and the
+harness replays the witness below on the implementation (`committed-reader-lost-wakeup`). -/
+
+/-- The model is run with the regenerated flag: `step` IS `stepWith Gen.HWReader.waitRechecks`. -/
+theorem step_uses_extracted_recheck (s : State) (op : Op) :
+    stepWith Gen.HWReader.waitRechecks s op = step s op := stepWith_gen s op
+
+/-- THE RE-CHECK CLOSES THE WINDOW: in ANY state, a reader that decided to wait on a HW sample
+which is no longer the log's HW (a `setHW` fell between its `checkHW` and its `registerWait`) is
+NOT parked by `registerWait`: it is sent back to sample the HW again, and `hwWaiters` is untouched. -/
+theorem recheck_closes_window (s : State) (id : Nat) (r : Reader) (hr : s.readers id = some r)
+    (hp : r.phase = .mustWait) (hne : s.log.hw ≠ r.hwSeen) :
+    (step s (.registerWait id)).readers id = some { r with phase := .atLimit } ∧
+    (step s (.registerWait id)).waiters = s.waiters := by
+  have hc : (Gen.HWReader.waitRechecks && Gen.HWReader.waitRecheckCmp.evalInt s.log.hw r.hwSeen) = true := by
+    simp only [Gen.HWReader.waitRechecks, Gen.HWReader.waitRecheckCmp, Cmp.evalInt, Bool.true_and,
+      decide_eq_true_eq]
+    exact hne
+  simp only [step, hr, hp, if_true, registerWait, hc]
+  exact ⟨setReader_self _ _ _, rfl⟩
+
+/-- The read-only verdict (`ErrCommitLogReadonly`: the subscription ends) is given by `registerWait`
+only to a reader whose sample IS the current HW, with the HW at the end of a read-only log — so
+(`readonly_end_complete`) such a reader has received everything the log will ever commit. -/
+theorem readonly_verdict_at_current_hw (s : State) (id : Nat) (r r' : Reader) (hr : s.readers id = some r)
+    (hp : r.phase = .mustWait) (hr' : (step s (.registerWait id)).readers id = some r')
+    (hf : r'.phase = .failed "readonly") :
+    r.hwSeen = s.log.hw ∧ s.log.hw = s.log.newest ∧ s.log.readonly = true := by
+  simp only [step, hr, hp, if_true, registerWait] at hr'
+  split at hr'
+  · rw [setReader_self] at hr'; injection hr' with hr'; subst hr'; cases hf
+  · rename_i hc
+    simp only [Gen.HWReader.waitRechecks, Bool.true_and, Gen.HWReader.waitRecheckCmp, Cmp.evalInt,
+      decide_eq_true_eq, ne_eq, Decidable.not_not] at hc
+    split at hr'
+    · rename_i hro
+      simp only [Gen.HWReader.waitReadonlyCmp, Cmp.evalInt, Bool.and_eq_true, decide_eq_true_eq] at hro
+      exact ⟨hc.symm, hro.1, hro.2⟩
+    · have : (setReader s id { r with phase := .waiting }).readers id = some r' := hr'
+      rw [setReader_self] at this; injection this with this; subst this; cases hf
 
 def rec1 : Rec := { rec0 with offset := 1 }
+
+/-- The witness schedule of the lost wake-up (one reader, one HW writer; the harness replays it
+step by step on the real log: corpus/C03/wakeup-window.steps). -/
+def lostWakeupOps : List Op :=
+  [.append [rec0, rec1], .setHW 0,
+   .newReader 0 0, .initReader 0, .beginRead 0, .readStep 0,   -- the reader receives message 0
+   .beginRead 0, .readStep 0,                                   -- ... and reaches its limit
+   .checkHW 0,                                                  -- the HW is still 0: it decides to wait
+   .setHW 1,                                                    -- the writer commits message 1: nobody is registered, nobody is woken
+   .registerWait 0]                                             -- the reader registers
+
+/-- WITHOUT THE RE-CHECK the wake-up is lost: after the witness schedule message 1 is in the log
+at the HW (committed), the reader — positioned before it, having received only message 0 — is
+parked on the stale sample 0, registered, and has no enabled operation. -/
+theorem lost_wakeup_without_recheck :
+    (runWith false (State.init (CLog.init 1024 false)) lostWakeupOps).log.abs.map (·.offset) = [0, 1] ∧
+    (runWith false (State.init (CLog.init 1024 false)) lostWakeupOps).log.hw = 1 ∧
+    (runWith false (State.init (CLog.init 1024 false)) lostWakeupOps).waiters = [0] ∧
+    ((runWith false (State.init (CLog.init 1024 false)) lostWakeupOps).readers 0).map
+      (fun r => (r.phase, r.hwSeen, r.delivered.map (·.offset), nextOp 0 r.phase)) =
+        some (.waiting, 0, [0], none) := by
+  simp only [lostWakeupOps, rec0, rec1]
+  eval_model
+
+/-- ... and it stays lost however long the reader and everybody else is scheduled, until the NEXT
+effective HW advance (or a read-only toggle, or its cancellation): under every continuation of
+quiet operations — appends, rolls, HW writes that do not raise the HW, any operation of any reader
+including its own — it is still parked with message 0 only, and the HW still is 1. Forever, if
+message 1 was the last one published. -/
+theorem lost_wakeup_without_recheck_forever (ops : List Op)
+    (hq : QuietRun false 0 (runWith false (State.init (CLog.init 1024 false)) lostWakeupOps) ops) :
+    (runWith false (State.init (CLog.init 1024 false)) (lostWakeupOps ++ ops)).log.hw = 1 ∧
+    ((runWith false (State.init (CLog.init 1024 false)) (lostWakeupOps ++ ops)).readers 0).map
+      (fun r => (r.phase, r.delivered.map (·.offset))) = some (.waiting, [0]) := by
+  have hsplit : runWith false (State.init (CLog.init 1024 false)) (lostWakeupOps ++ ops) =
+      runWith false (runWith false (State.init (CLog.init 1024 false)) lostWakeupOps) ops := by
+    simp [runWith, List.foldl_append]
+  obtain ⟨_, hhw, _, hrd⟩ := lost_wakeup_without_recheck
+  cases hr : (runWith false (State.init (CLog.init 1024 false)) lostWakeupOps).readers 0 with
+  | none => rw [hr] at hrd; cases hrd
+  | some r =>
+    rw [hr] at hrd
+    simp only [Option.map_some, Option.some.injEq, Prod.mk.injEq] at hrd
+    obtain ⟨h1, h2⟩ := parked_stays_run false ops hr hrd.1 hq
+    rw [hsplit, h1, h2, hhw]
+    exact ⟨rfl, by simp only [Option.map_some, hrd.1, hrd.2.2.1]⟩
+
+/-- WITH the re-check (the model as regenerated from the code) the same schedule does not park
+the reader, and three more steps of its own hand it message 1. -/
+theorem same_schedule_with_recheck :
+    ((run (State.init (CLog.init 1024 false)) lostWakeupOps).readers 0).map (·.phase) = some .atLimit ∧
+    (run (State.init (CLog.init 1024 false)) lostWakeupOps).waiters = [] ∧
+    ((run (State.init (CLog.init 1024 false)) (lostWakeupOps ++ [.checkHW 0, .resync 0, .readStep 0])).readers 0).map
+      (fun r => r.delivered.map (·.offset)) = some [0, 1] := by
+  simp only [lostWakeupOps, rec0, rec1, List.cons_append, List.nil_append]
+  eval_model
+
+/-- The read-only variant of the lost wake-up: if the log becomes read-only inside the same window
+(`notifyReadonly` finds nobody registered), a `waitForHW` without the re-check gives the reader
+the read-only verdict — the subscription ENDS with committed message 1 undelivered. -/
+theorem readonly_end_incomplete_without_recheck :
+    ((runWith false (State.init (CLog.init 1024 false))
+      [.append [rec0, rec1], .setHW 0, .newReader 0 0, .initReader 0, .beginRead 0, .readStep 0,
+       .beginRead 0, .readStep 0, .checkHW 0, .setHW 1, .setReadonly true, .registerWait 0]).readers 0).map
+        (fun r => (r.phase, r.delivered.map (·.offset))) = some (.failed "readonly", [0]) := by
+  simp only [rec0, rec1]
+  eval_model
+
+/-! ### The hypotheses are satisfiable; the model does something -/
 
 /-- A disciplined run on a fresh log in which a reader created before any data receives both
 messages and parks, and a second reader created beyond the HW starts at HW+1. -/
